@@ -78,6 +78,25 @@ VLastHas(v) == VRemaining(v) > 0
 VLastIdx(v) == VCount(v) - 1
 
 ---------------------------------------------------------------------------
+(* a chunk (`Windowed`): layer 1 - item p (0-based) of the chunk that starts at frame `at` is frame at + p scaled  *)
+(* by the window value OF POSITION p, whatever the VALUES of the frames are (silence, repeated frames, ...).       *)
+(* Layer 2 - as coded: a signal cursor and a window cursor, both advanced by every next().  `frames` is any        *)
+(* sequence of frame values; sc = TRUE stands for a value-dependent early return that leaves the window cursor     *)
+(* where it is (the coded iterator has none: sc = FALSE); WdLockStep is what makes layer 2 refine layer 1.         *)
+WdNew(at) == [sig |-> at, win |-> 0]
+WdSilent(f) == \A c \in 1..Len(f) : f[c] = 0
+\* sc = TRUE: the hypothetical "a silent frame needs no window value" shortcut
+WdNextWith(wd, f, sc) == [sig |-> wd.sig + 1, win |-> IF sc /\ WdSilent(f) THEN wd.win ELSE wd.win + 1]
+WdNext(wd, f) == WdNextWith(wd, f, FALSE)
+\* the (frame index, window position) pairs of the first n items of the chunk at `at` over `frames` (1-based seq)
+RECURSIVE WdPairsR(_, _, _, _, _)
+WdPairsR(frames, wd, n, acc, sc) ==
+  IF n = 0 THEN acc
+  ELSE WdPairsR(frames, WdNextWith(wd, frames[wd.sig + 1], sc), n - 1, Append(acc, << wd.sig, wd.win >>), sc)
+WdPairs(frames, at, n) == WdPairsR(frames, WdNew(at), n, << >>, FALSE)
+WdLockStep(frames, at, n) == WdPairs(frames, at, n) = [p \in 1..n |-> << at + p - 1, p - 1 >>]
+
+---------------------------------------------------------------------------
 (* layer 2: the Windower as coded: w = [off, rem] *)
 WNew(L) == [off |-> 0, rem |-> L]
 WNext(w, b, h) ==
